@@ -11,6 +11,8 @@ type ssaFn = ssa.Function
 
 func debugDump(w *World, what string, args []string) {
 	switch what {
+	case "loops":
+		debugLoops(w, args)
 	case "contracts":
 		debugContracts(w, args)
 	case "bounds":
